@@ -156,6 +156,10 @@ func resolveLocal(v ssa.Value) []ssa.Value {
 	idx := InstrIndex(u)
 	for i := idx - 1; i >= 0; i-- {
 		if st, ok := b.Instrs[i].(*ssa.Store); ok && st.Addr == a {
+			// `*t1 = v; t = *t1; *t1 = t` chains (named results): resolve through
+			if inner, ok := st.Val.(*ssa.UnOp); ok && inner.Op == token.MUL && inner.X == ssa.Value(a) && inner != u {
+				return resolveLocal(inner)
+			}
 			return []ssa.Value{st.Val}
 		}
 	}
@@ -529,3 +533,10 @@ func RetVal(r ssa.Instruction, i int) ssa.Value {
 	}
 	return v
 }
+
+// SameValue reports whether two SSA values denote the same runtime value: identical, or loads of
+// one local cell.
+func SameValue(a, b ssa.Value) bool { return sameValue(a, b) }
+
+// Unwrap strips conversions that do not change the identity of a value.
+func Unwrap(v ssa.Value) ssa.Value { return unwrap(v) }
